@@ -145,6 +145,14 @@ class Gen:
             self.hit("doc")
         return out
 
+    def cfg_attrs(self):
+        """one cfg attribute, sometimes two or three separate ones (their target_os names are pooled by the rule)"""
+        out = [self.cfg_attr_meta()]
+        while len(out) < 3 and self.rng.random() < 0.3:
+            out.append(self.cfg_attr_meta())
+            self.hit("cfg-multiple")
+        return out
+
     def cfg_attr_meta(self):
         os_ = lambda: m_nv("target_os", lit_s(self.rng.choice(["ios", "android", "macos", "wasm32"])))
         r = self.rng.random()
@@ -214,7 +222,7 @@ class Gen:
             ts.append(m_list(self.rng.choice(LANG_NAMES), [m_list("nested", [m_path("x")])]))
             self.hit("edge-bad-decorator-args")
         if self.chance("p_cfg"):
-            attrs.append(self.cfg_attr_meta())
+            attrs += self.cfg_attrs()
         docs = self.docs()
         if kind == "variant-struct" and self.chance("p_rename_all"):
             serde.append(m_nv("rename_all", lit_s(self.rng.choice(RULES))))
@@ -271,7 +279,7 @@ class Gen:
             self.hit("item-serialized_as")
         derive = [m_list("derive", [m_path("Serialize"), m_path("Deserialize")])] if self.rng.random() < 0.7 else []
         if self.chance("p_cfg"):
-            attrs.append(self.cfg_attr_meta())
+            attrs += self.cfg_attrs()
         groups = attrs + derive + self.serde_pack(serde) + ([m_list("typeshare", ts)] if ts else []) + self.docs()
         self.rng.shuffle(groups)
         return groups
@@ -475,7 +483,7 @@ class Gen:
                 out.insert(rng.randint(0, len(out)), self.use(self.o["crates"]))
         fattrs = []
         if self.chance("p_cfg") and rng.random() < 0.3:
-            fattrs.append(self.cfg_attr_meta())
+            fattrs += self.cfg_attrs()
         return {"attrs": fattrs, "items": out}
 
     def ext_sx(self):
